@@ -1,0 +1,70 @@
+
+#ifndef _ORC_VERIF_H_
+#define _ORC_VERIF_H_
+
+/* Verification hooks.  Everything in this header, and every use of it in the
+ * library, is compiled only when ORC_VERIF_HOOKS is defined.  The hooks are
+ * observation and scheduling points for an external harness; they do not
+ * change behaviour when the function pointers are left NULL. */
+
+#ifdef ORC_VERIF_HOOKS
+
+#include <orc/orcutils.h>
+
+ORC_BEGIN_DECLS
+
+enum {
+  ORC_VERIF_PT_NONE = 0,
+  /* mutexes: *_LOCK is reported before the lock is requested, *_UNLOCK after
+   * it has been released */
+  ORC_VERIF_PT_GLOBAL_LOCK,
+  ORC_VERIF_PT_GLOBAL_UNLOCK,
+  ORC_VERIF_PT_ONCE_LOCK,
+  ORC_VERIF_PT_ONCE_UNLOCK,
+  /* orc_once_enter / orc_once_leave (orconce.h) */
+  ORC_VERIF_PT_ONCE_LOAD_FAST,
+  ORC_VERIF_PT_ONCE_LOAD_SLOW,
+  ORC_VERIF_PT_ONCE_READ_VALUE,
+  ORC_VERIF_PT_ONCE_WRITE_VALUE,
+  ORC_VERIF_PT_ONCE_STORE_FLAG,
+  /* orc_init */
+  ORC_VERIF_PT_INIT_READ_FAST,
+  ORC_VERIF_PT_INIT_READ_SLOW,
+  ORC_VERIF_PT_INIT_BODY,
+  ORC_VERIF_PT_INIT_WRITE,
+  /* code memory allocator */
+  ORC_VERIF_PT_CODEMEM_ALLOC_ENTER,
+  ORC_VERIF_PT_CODEMEM_SEARCHED,
+  ORC_VERIF_PT_CODEMEM_SPLIT,
+  ORC_VERIF_PT_CODEMEM_MARKED,
+  ORC_VERIF_PT_CODEMEM_FREE_ENTER,
+  ORC_VERIF_PT_CODEMEM_FREE_MARKED,
+  ORC_VERIF_PT_CODEMEM_FREE_MERGED_NEXT,
+  ORC_VERIF_PT_CODEMEM_REGION_NEW,
+  ORC_VERIF_PT_LAST
+};
+
+typedef void (*OrcVerifSchedHook) (int point);
+typedef void (*OrcVerifCodememCallback) (void *user, int region,
+    void *write_ptr, void *exec_ptr, int region_size,
+    int chunk_offset, int chunk_size, int chunk_used);
+/* return non-zero if the answer was supplied */
+typedef int (*OrcVerifCpuidHook) (orc_uint32 op, orc_uint32 ecx_in,
+    orc_uint32 *a, orc_uint32 *b, orc_uint32 *c, orc_uint32 *d);
+typedef int (*OrcVerifXgetbvHook) (orc_uint32 *xcr0);
+
+ORC_API OrcVerifSchedHook orc_verif_sched_hook;
+ORC_API OrcVerifCpuidHook orc_verif_cpuid_hook;
+ORC_API OrcVerifXgetbvHook orc_verif_xgetbv_hook;
+
+ORC_API void orc_verif_codemem_walk (OrcVerifCodememCallback cb, void *user);
+
+#define ORC_VERIF_POINT(id) do { \
+  if (orc_verif_sched_hook) orc_verif_sched_hook (id); \
+} while (0)
+
+ORC_END_DECLS
+
+#endif /* ORC_VERIF_HOOKS */
+
+#endif
